@@ -105,6 +105,14 @@ struct SimpleOpHeadsStoreLock {
 
 impl OpHeadsStoreLock for SimpleOpHeadsStoreLock {}
 
+/// Lock that excludes nobody. Handed out only while a verification scheduler
+/// is attached to the thread and has disabled locking.
+#[cfg(feature = "verif-hooks")]
+struct VerifDisabledLock;
+
+#[cfg(feature = "verif-hooks")]
+impl OpHeadsStoreLock for VerifDisabledLock {}
+
 #[async_trait]
 impl OpHeadsStore for SimpleOpHeadsStore {
     fn name(&self) -> &str {
@@ -116,25 +124,41 @@ impl OpHeadsStore for SimpleOpHeadsStore {
         old_ids: &[OperationId],
         new_id: &OperationId,
     ) -> Result<(), OpHeadsStoreError> {
+        #[cfg(feature = "verif-hooks")]
+        {
+            crate::verif_hooks::yield_point("op_heads.add").await;
+            crate::verif_hooks::crash_point("op_heads.before_add");
+        }
         self.add_op_head(new_id)
             .map_err(|err| OpHeadsStoreError::Write {
                 new_op_id: new_id.clone(),
                 source: err.into(),
             })?;
+        #[cfg(feature = "verif-hooks")]
+        crate::verif_hooks::crash_point("op_heads.after_add");
         for old_id in old_ids {
             if old_id == new_id {
                 continue;
+            }
+            #[cfg(feature = "verif-hooks")]
+            {
+                crate::verif_hooks::yield_point("op_heads.remove").await;
+                crate::verif_hooks::crash_point("op_heads.before_remove");
             }
             self.remove_op_head(old_id)
                 .map_err(|err| OpHeadsStoreError::Write {
                     new_op_id: new_id.clone(),
                     source: err.into(),
                 })?;
+            #[cfg(feature = "verif-hooks")]
+            crate::verif_hooks::crash_point("op_heads.after_remove");
         }
         Ok(())
     }
 
     async fn get_op_heads(&self) -> Result<Vec<OperationId>, OpHeadsStoreError> {
+        #[cfg(feature = "verif-hooks")]
+        crate::verif_hooks::yield_point("op_heads.read").await;
         let mut op_heads = vec![];
         for op_head_entry in
             std::fs::read_dir(&self.dir).map_err(|err| OpHeadsStoreError::Read(err.into()))?
@@ -162,6 +186,23 @@ impl OpHeadsStore for SimpleOpHeadsStore {
     }
 
     async fn lock(&self) -> Result<Box<dyn OpHeadsStoreLock + '_>, OpHeadsStoreError> {
+        // A blocking flock would deadlock a single-threaded cooperative
+        // scheduler, so poll the lock instead while one is attached.
+        #[cfg(feature = "verif-hooks")]
+        if crate::verif_hooks::scheduler_attached() {
+            if crate::verif_hooks::lock_disabled() {
+                crate::verif_hooks::yield_point("op_heads.lock").await;
+                return Ok(Box::new(VerifDisabledLock));
+            }
+            loop {
+                crate::verif_hooks::yield_point("op_heads.lock").await;
+                if let Some(lock) = FileLock::try_lock(self.dir.join("lock"))
+                    .map_err(|err| OpHeadsStoreError::Lock(err.into()))?
+                {
+                    return Ok(Box::new(SimpleOpHeadsStoreLock { _lock: lock }));
+                }
+            }
+        }
         let lock = FileLock::lock(self.dir.join("lock"))
             .map_err(|err| OpHeadsStoreError::Lock(err.into()))?;
         Ok(Box::new(SimpleOpHeadsStoreLock { _lock: lock }))
